@@ -1585,6 +1585,11 @@ fn aggregate_scalar_simd(
             } else if let Some(a) = input.as_any().downcast_ref::<Date32Array>() {
                 let min = a.iter().flatten().min().unwrap_or(i32::MAX);
                 Arc::new(Date32Array::from(vec![min]))
+            } else if let Some(a) = input.as_any().downcast_ref::<arrow::array::Int32Array>() {
+                Arc::new(arrow::array::Int32Array::from(vec![a
+                    .iter()
+                    .flatten()
+                    .min()]))
             } else {
                 return Err(QueryError::NotImplemented(format!(
                     "MIN not implemented for type {:?}",
@@ -1612,6 +1617,11 @@ fn aggregate_scalar_simd(
             } else if let Some(a) = input.as_any().downcast_ref::<Date32Array>() {
                 let max = a.iter().flatten().max().unwrap_or(i32::MIN);
                 Arc::new(Date32Array::from(vec![max]))
+            } else if let Some(a) = input.as_any().downcast_ref::<arrow::array::Int32Array>() {
+                Arc::new(arrow::array::Int32Array::from(vec![a
+                    .iter()
+                    .flatten()
+                    .max()]))
             } else {
                 return Err(QueryError::NotImplemented(format!(
                     "MAX not implemented for type {:?}",
@@ -2252,6 +2262,9 @@ fn update_accumulator(
                 } else if let Some(a) = input.as_any().downcast_ref::<Date32Array>() {
                     let val = a.value(row) as i64;
                     state.min_i64 = Some(state.min_i64.map_or(val, |m| m.min(val)));
+                } else if let Some(a) = input.as_any().downcast_ref::<arrow::array::Int32Array>() {
+                    let val = a.value(row) as i64;
+                    state.min_i64 = Some(state.min_i64.map_or(val, |m| m.min(val)));
                 }
             }
         }
@@ -2273,6 +2286,9 @@ fn update_accumulator(
                         }
                     }));
                 } else if let Some(a) = input.as_any().downcast_ref::<Date32Array>() {
+                    let val = a.value(row) as i64;
+                    state.max_i64 = Some(state.max_i64.map_or(val, |m| m.max(val)));
+                } else if let Some(a) = input.as_any().downcast_ref::<arrow::array::Int32Array>() {
                     let val = a.value(row) as i64;
                     state.max_i64 = Some(state.max_i64.map_or(val, |m| m.max(val)));
                 }
@@ -2722,6 +2738,21 @@ fn build_agg_array(
                 };
                 match val {
                     Some(v) => builder.append_value(v),
+                    None => builder.append_null(),
+                }
+            }
+            Ok(Arc::new(builder.finish()))
+        }
+        (AggregateFunction::Min | AggregateFunction::Max, DataType::Int32) => {
+            let mut builder = arrow::array::Int32Builder::with_capacity(num_groups);
+            for states in groups.values() {
+                let val = if func == AggregateFunction::Min {
+                    states[agg_idx].min_i64
+                } else {
+                    states[agg_idx].max_i64
+                };
+                match val {
+                    Some(v) => builder.append_value(v as i32),
                     None => builder.append_null(),
                 }
             }
